@@ -65,14 +65,28 @@ func topicScenario(k, rounds int, r *rand.Rand) string {
 		<-ready
 	}
 	wg.Add(1)
+	var pmu sync.Mutex
+	panicked := ""
 	go func() {
 		defer wg.Done()
+		defer func() {
+			if r := recover(); r != nil {
+				pmu.Lock()
+				panicked = fmt.Sprint(r)
+				pmu.Unlock()
+			}
+		}()
 		for n := 0; n < rounds; n++ {
 			t.Publish(n)
 		}
 	}()
 	if !waitTimeout(&wg, 2*time.Second) {
 		return "FAIL topic-wedged publisher-or-subscriber-blocked-forever"
+	}
+	pmu.Lock()
+	defer pmu.Unlock()
+	if panicked != "" {
+		return "FAIL publisher-panicked " + strings.ReplaceAll(panicked, " ", "-")
 	}
 	return "ok"
 }
